@@ -9,7 +9,7 @@ VIMPORTS = ("From Ahb Require Import Model.Prelude Model.Grammar Gen.Gen_logic G
 
 def run(ctx):
     built, cases = c04.common(ctx, "Props/C06.vo")
-    ok_v, log_v = runner.coq_make(["Corr/Validity.vo"]) if runner.REPLAY is None else (True, "")
+    ok_v, log_v = runner.coq_make(["Corr/Validity.vo", "Corr/Validate.vo"]) if runner.REPLAY is None else (True, "")
     if not ok_v:
         ctx.broke("Coq build failed for Corr/Validity.vo", log_v[-1500:])
     raws = c04.correspondence(ctx, cases, "C06", levels=("node",))
@@ -32,6 +32,7 @@ def run(ctx):
         if not exprs.valid(t) and len(inv) != len(obs):
             ok = [o for o in obs if o[1] == "ok"]
             ctx.fail(f"{name}|invalid-evaluates", {"expression": name, "rc": ok[0][0] if ok else {}}, "invalid-expression error under every assignment (structurally invalid)", "evaluates", "oracle: C06 invalid_always")
+    ahb_level(ctx, per)
     n_valid_api = validity_check_oracle(ctx, per)
     ctx.notes["validity_check_calls"] = n_valid_api
     ctx.coverage["distinct_nontrivial"] = nontrivial
@@ -41,6 +42,67 @@ def run(ctx):
     for name in list(per)[300:303]:
         ctx.sample({"expression": name, "structurally_valid": exprs.valid(per[name][0])})
     return finish(ctx, assumptions=["expressions are in the property's domain (dom): juxtaposition attaches one FC key to a hint or an RC-carrying operand"])
+
+
+def ahb_level(ctx, per):
+    """AHB expressions with several parts: if some part is structurally invalid the evaluation raises the invalid-expression error under EVERY
+    assignment (also when an earlier part is fulfilled), if all parts are valid under none. Correspondence with Model/EvalAhb.v on the same runs."""
+    import asyncio
+    import itertools
+
+    from ahbicht.expressions.ahb_expression_evaluation import evaluate_ahb_expression_tree
+    from vlib import evalimpl, valcorr
+    from vlib.exprs import gcer
+
+    names = sorted(n for n, (t, _o) in per.items() if len(set(exprs.leaves(t))) <= 2)
+    valid = [n for n in names if exprs.valid(per[n][0])]
+    invalid = [n for n in names if not exprs.valid(per[n][0])]
+    if not valid or not invalid:
+        return
+    rng = ctx.rng
+    terms, meta, n_runs = [], [], 0
+    for _ in range(40 if ctx.quick else 600):
+        shape = rng.choice(("vi", "iv", "vvi", "viv", "vv", "vvv"))
+        parts = [rng.choice(valid if ch == "v" else invalid) for ch in shape]
+        marks = rng.sample(["Muss", "Soll", "Kann"], len(parts)) if len(parts) <= 3 else None
+        s = " ".join(f"{m} {p}" for m, p in zip(marks, parts))
+        keys = sorted({k for p in parts for k in exprs.leaves(per[p][0])})
+        rk = [k for k in keys if exprs.kind(k) == "rc"]
+        if len(rk) > 3:
+            continue
+        has_invalid = "i" in shape
+        raised = []
+        res = None
+        for vals in itertools.product(evalcorr.STATES, repeat=len(rk)):
+            rho = dict(zip(rk, vals))
+            hints = evalcorr.default_hints([k for k in keys if exprs.kind(k) == "hint"])
+            fc = {k: (True, None) for k in keys if exprs.kind(k) == "fc"}
+            evalimpl.set_cer(rc=rho, hints=hints, fc=fc)
+            if res is None:
+                res = valcorr.resolved(s)
+                if res[0] != "ok":
+                    break
+            raw = evalimpl.outcome(lambda: asyncio.run(evaluate_ahb_expression_tree(res[1])))
+            n_runs += 1
+            raised.append((rho, raw[0] == "exn" and raw[1] == "InvalidExpr", raw))
+            terms.append(f"({gcer(rho, hints, fc)}, {valcorr.nx_term(res)}, {valcorr.ahb_obs(raw)})")
+            meta.append({"ahb_expression": s, "rc": rho})
+        if res is None or res[0] != "ok":
+            continue
+        if has_invalid and not all(r[1] for r in raised):
+            ok = next(r for r in raised if not r[1])
+            ctx.fail(f"ahb|{s}|invalid-evaluates", {"expression": s, "rc": ok[0]}, "invalid-expression error under every assignment (a part is structurally invalid)",
+                     str(ok[2])[:200], "oracle: C06 invalid_always at AHB level")
+        if not has_invalid and any(r[1] for r in raised):
+            bad = next(r for r in raised if r[1])
+            ctx.fail(f"ahb|{s}|valid-raises", {"expression": s, "rc": bad[0]}, "no invalid-expression error (all parts valid)", "InvalidExpressionError", "oracle: C06 valid_never at AHB level")
+    n, bad, err = runner.run_case_files("C06_A", valcorr.IMPORTS, "ahb_case", "ahb_check", terms, shard=200)
+    if err:
+        ctx.broke("correspondence (AHB evaluation) could not be evaluated in Coq", err)
+    for i in bad[:10]:
+        ctx.broke("correspondence mismatch (AHB evaluation): model and ahbicht differ", str(meta[i]))
+    ctx.notes.setdefault("correspondence", {})["ahb_evaluation"] = {"cases": n, "mismatches": len(bad)}
+    ctx.add_eval(n)
 
 
 def validity_check_oracle(ctx, per):
